@@ -136,11 +136,12 @@ func runLifecycleCase(c lcCase, tmp string) []map[string]interface{} {
 		}
 		return sr
 	}
+	warnLog := &vp.SyncBuf{} // what the client complained about (diagnostics attached to Kill events)
 	cfg := &plugin.ClientConfig{
 		HandshakeConfig:  plugin.HandshakeConfig{ProtocolVersion: 1, MagicCookieKey: "K", MagicCookieValue: "V"},
 		Plugins:          vp.Set("grpc", "1"),
 		StartTimeout:     10 * time.Second,
-		Logger:           hclog.NewNullLogger(),
+		Logger:           hclog.New(&hclog.LoggerOptions{Output: warnLog, Level: hclog.Warn}),
 		UnixSocketConfig: &plugin.UnixSocketConfig{TempDir: tmp},
 		SkipHostEnv:      true,
 	}
@@ -254,7 +255,18 @@ func runLifecycleCase(c lcCase, tmp string) []map[string]interface{} {
 		case "Kill":
 			t0 := time.Now()
 			cl.Kill()
-			logEv(g, op, "done", map[string]interface{}{"ms": time.Since(t0).Milliseconds()})
+			mu.Lock()
+			f := fp
+			mu.Unlock()
+			quitSeen := false
+			if f != nil {
+				select {
+				case <-f.done:
+					quitSeen = true
+				default:
+				}
+			}
+			logEv(g, op, "done", map[string]interface{}{"ms": time.Since(t0).Milliseconds(), "quit_seen": quitSeen, "warn": string(warnLog.Bytes())})
 		case "Crash":
 			mu.Lock()
 			f := fp
